@@ -57,6 +57,7 @@ class SimProblem(Problem):
         self.policy = policy or spec.get("policy", "fresh")
         self.fmt = fmt or spec.get("fmt", "coo")
         self.log = log  # callable(event tuple) or None
+        self.phase = "construct"  # construct | presolve (inside solve(), before the first trial) | run
         self.armed = False  # transient fault positions count from solve.begin
         self.count = {c: 0 for c in COMPS}  # calls while armed
         self.total = {c: 0 for c in COMPS}  # all calls
@@ -111,7 +112,7 @@ class SimProblem(Problem):
         inb = self.um.in_bounds(x)
         self.calls.append((comp, self.total[comp], x.tobytes(), inb, site[0] if site else "?"))
         if not inb:
-            self.oob.append((comp, self.total[comp], tuple(site[:12]), x.copy()))
+            self.oob.append((comp, self.total[comp], tuple(site[:12]), x.copy(), self.phase))
         if self.log is not None:
             self.log(("eval", comp, self.total[comp], x.tobytes(), inb))
         if self.track_alias:
